@@ -17,6 +17,8 @@ func main() {
 	nTable := flag.Int("table", 200, "number of table cases")
 	nDirs := flag.Int("dirs", 40, "number of directories of the readdir stream")
 	nScripts := flag.Int("scripts", 6, "fd_readdir scripts per directory")
+	nFs := flag.Int("fs", 100, "number of fs cases")
+	compEvery := flag.Int("compiler-every", 10, "run every k-th fs case on the compiler engine (0 = never)")
 	flag.Parse()
 	ctx := context.Background()
 	root, err := os.MkdirTemp("", "verif-c16-")
@@ -28,4 +30,5 @@ func main() {
 	defer out.Flush()
 	genTable(c.NewRng(*seed*3+1), out, *nTable)
 	genReaddir(ctx, c.NewRng(*seed*3+2), out, root, *nDirs, *nScripts)
+	genFs(ctx, c.NewRng(*seed*3+3), out, root, *nFs, *compEvery)
 }
